@@ -25,8 +25,13 @@ pub fn case_set(ctx: &mut Ctx, a: &[&str]) {
         c = match args[8].as_str() { "strict" => c.with_same_site(SameSite::Strict), "lax" => c.with_same_site(SameSite::Lax), "none" => c.with_same_site(SameSite::None), _ => c };
         if args[9] != "-" { c = c.with_expires(UNIX_EPOCH + Duration::from_secs(args[9].parse().unwrap())); }
         let r = Response::new(200).with_set_cookie(c.clone()).with_set_cookie(c);
-        let vals: Vec<String> = r.headers.get_all("set-cookie").iter().map(|v| hex(v.as_bytes())).collect();
-        format!("n={} {}", r.headers.len(), vals.join(","))
+        // the fields as the client receives them: taken from the serialised response, not from the header list
+        let mut w = crate::io_script::ScriptWriter::new(vec![], None, 0);
+        let _ = crate::io_script::block_on(servlin::internal::write_http_response(&mut w, &r, false));
+        let head_end = w.out.windows(4).position(|x| x == b"\r\n\r\n").unwrap_or(w.out.len());
+        let vals: Vec<String> = w.out[..head_end].split(|b| *b == b'\n').filter_map(|l| l.strip_suffix(b"\r").unwrap_or(l).strip_prefix(b"set-cookie: ").map(hex)).collect();
+        let listed = r.headers.get_all("set-cookie").len();
+        format!("n={} {}", if listed == vals.len() { r.headers.len() } else { 999 }, vals.join(","))
     });
     ctx.emit("c15s", a, &obs);
 }
